@@ -82,6 +82,10 @@ func (g *schemaGen) text() string {
 		if g.r.Chance(1, 3) {
 			s += hx.Pick(g.r, []string{"'", "''", "\"", "`", "\\", "\\'", ";", "\n-- x", "\r\n", "\r", "/*", "*/"})
 		}
+		if g.r.Chance(1, 8) {
+			// texts that begin and end with an apostrophe without being a quoted literal
+			s = hx.Pick(g.r, []string{"'", "'it's'", "'a'b'", "'" + s + "'", "''"})
+		}
 		return s
 	}
 	return hx.Pick(g.r, []string{"a comment", "value", "x", "Hello world", "created by atlas"})
